@@ -73,8 +73,9 @@ register('C02', 'p_tree', 'c02',
          ORACLE)
 register('C06', 'p_tree', 'c06',
          TREE_RULE + 'one persistent injected OSError (EACCES, EPERM, EIO, ENOMEM, ELOOP, ENOTDIR, EMFILE, ESTALE) on one primitive (open, stat, fstat, '
-         'scandir, read) of one object (file, directory, Manifest, stray); verification of a sub-path with throwing or keep-going handler, with and '
-         'without last_mtime; non-trivial = distinct (tree, fault, op)',
+         'scandir, read, Python-level open) of one object (file, directory, Manifest, stray); verification of a sub-path with throwing or keep-going handler, with and '
+         'without last_mtime; plus update (scan for unregistered Manifests, refresh) + save under one fault, with file listings after the failed operation; '
+         'non-trivial = distinct (tree, fault, op)',
          'Theorems in Properties/C06.v (per-primitive error propagation); the fault is injected into the real os.* / open() calls in-process and into the model.',
          ORACLE + ['faults are persistent for the run and keyed by (st_dev, st_ino)'])
 register('C07', 'p_tree', 'c07',
@@ -89,7 +90,7 @@ register('C16', 'p_tree', 'c16',
          'mutual pairs, chains; 6175 graphs, all in the thorough tier, 900 sampled in quick) x IGNORE {none, on the link, above it} x {throwing, keep-going}; '
          'plus random trees with a directory on a second device (/dev/shm) linked in at any position, with and without one-file-system mode; each '
          'implementation run under a 20 s watchdog; an independent oracle decides whether a link leads back to an ancestor; non-trivial = distinct case',
-         'Theorems in Properties/C16.v; verification walks only (the update and unregistered-Manifest walks are exercised by C03/C10 runs).',
+         'Theorems in Properties/C16.v are about the verification walk; the update / create / unregistered-Manifest walks run over the same graphs and over trees with a directory on a second device or a symlink loop (model vs /repo).',
          ORACLE + ['kernel: (st_dev, st_ino) identifies a directory'])
 
 UPD_RULE = ('random consistent trees as for C01, then a prior Manifest state out of {consistent, stale (1-3 of: content same/other size, delete, stray, '
